@@ -412,6 +412,14 @@ def order_semantics(fn):
       if isinstance(e.func, ast.Attribute) and e.func.attr == 'copy' and not e.args:
         v = ev(e.func.value)
         return _Seq(v.segs) if isinstance(v, _Seq) else v
+      if fnm in ('itertools.chain', 'chain') and e.args and not e.keywords:
+        segs = []
+        for a_ in e.args:
+          v_ = ev(a_)
+          if not isinstance(v_, _Seq):
+            raise Uninterpreted(u(e))
+          segs += v_.segs
+        return _Seq(segs)
       if fnm == 'reversed' or (fnm == 'sorted' and any(k.arg == 'reverse' for k in e.keywords)):
         v = ev(e.args[0])
         return _Seq([('?', elements(v))])
